@@ -471,6 +471,133 @@ theorem dispatch_spec (hS : Sound I B G) (ps : PS σ) (hG : G ps.w) (flush : Boo
             exact ⟨.prefix hne hnoL hnoA a1 a2 a3 a4, s1, s2, s0⟩
 end
 
+/-! ### the rule determines the decision -/
+
+/-- the chosen binding is unique: same position in the list, hence the same binding -/
+theorem Chosen_eq {bs : List Binding} {P : Binding → Bool} {b b' : Binding}
+    (h : Chosen bs P b) (h' : Chosen bs P b') : b = b' := by
+  obtain ⟨pre, post, e, hP, hpost, hpre⟩ := h
+  obtain ⟨pre', post', e', hP', hpost', hpre'⟩ := h'
+  have hh : pre ++ b :: post = pre' ++ b' :: post' := e.symm.trans e'
+  rcases List.append_eq_append_iff.mp hh with ⟨a, ha1, ha2⟩ | ⟨c, hc1, hc2⟩
+  · cases a with
+    | nil => simp at ha2; exact ha2.1
+    | cons x a =>
+      simp at ha2
+      obtain ⟨rfl, rfl⟩ := ha2
+      have h1 : cnt b' ≤ cnt b := hpre' b (by rw [ha1]; simp) hP
+      have h2 : cnt b < cnt b' := hpost b' (by simp) hP'
+      omega
+  · cases c with
+    | nil => simp at hc2; exact hc2.1.symm
+    | cons x c =>
+      simp at hc2
+      obtain ⟨rfl, rfl⟩ := hc2
+      have h1 : cnt b ≤ cnt b' := hpre b' (by rw [hc1]; simp) hP'
+      have h2 : cnt b' < cnt b := hpost' b (by simp) hP
+      omega
+
+theorem Chosen.mem {bs : List Binding} {P : Binding → Bool} {b : Binding} (h : Chosen bs P b) :
+    b ∈ bs ∧ P b = true := by
+  obtain ⟨pre, post, e, hP, _, _⟩ := h
+  exact ⟨by rw [e]; simp, hP⟩
+
+theorem PE_imp_PA {act : F → Bool} {ks : List Key} {c : Binding} (h : PE act ks c = true) :
+    PA act ks c = true := by
+  simp only [PE, PA, Bool.and_eq_true] at h ⊢
+  exact h.1
+
+/-- **the documented rule is a function**: for given bindings, filter values, key buffer and
+    flush flag there is exactly one decision — together with `dispatch_spec`, the model's decision
+    is *the* decision of the rule. -/
+theorem Rule_deterministic {bs : List Binding} {act : F → Bool} {buf : List KP} {flush : Bool}
+    {d d' : Decision} (h : Rule bs act buf flush d) (h' : Rule bs act buf flush d') : d = d' := by
+  have take_len : buf.take buf.length = buf := List.take_length
+  -- contradictions used below
+  have noPE_vs : ∀ {b}, Chosen bs (PE act (keysOf buf)) b →
+      (∀ c ∈ bs, PE act (keysOf buf) c = false) → False := by
+    intro b hc hn; have := hc.mem; rw [hn b this.1] at this; exact absurd this.2 (by simp)
+  have noPA_vs : ∀ {b}, Chosen bs (PA act (keysOf buf)) b →
+      (∀ c ∈ bs, PA act (keysOf buf) c = false) → False := by
+    intro b hc hn; have := hc.mem; rw [hn b this.1] at this; exact absurd this.2 (by simp)
+  have PE_noPA : ∀ {b}, Chosen bs (PE act (keysOf buf)) b →
+      (∀ c ∈ bs, PA act (keysOf buf) c = false) → False := by
+    intro b hc hn; have := hc.mem
+    have h2 := PE_imp_PA this.2; rw [hn b this.1] at h2; exact absurd h2 (by simp)
+  have noAll : (∀ j, 1 ≤ j → j ≤ buf.length → ∀ c ∈ bs, PA act (keysOf (buf.take j)) c = false) →
+      buf ≠ [] → ∀ c ∈ bs, PA act (keysOf buf) c = false := by
+    intro hn hne c hc
+    have := hn buf.length (List.length_pos_iff.mpr hne) (Nat.le_refl _) c hc
+    rwa [take_len] at this
+  have longer_vs : flush = false → (∃ c ∈ bs, PL act (keysOf buf) c = true) →
+      (flush = true ∨ ∀ c ∈ bs, PL act (keysOf buf) c = false) → False := by
+    intro hf ⟨c, hc, hl⟩ hor
+    rcases hor with h1 | h1
+    · rw [hf] at h1; cases h1
+    · rw [h1 c hc] at hl; cases hl
+  cases h with
+  | idle e =>
+    cases h' with
+    | idle _ => rfl
+    | eager hne _ => exact absurd e hne
+    | wait hne _ _ _ => exact absurd e hne
+    | exact hne _ _ _ => exact absurd e hne
+    | «prefix» hne _ _ _ _ _ _ => exact absurd e hne
+    | drop hne _ _ => exact absurd e hne
+  | eager hne hc =>
+    cases h' with
+    | idle e => exact absurd e hne
+    | eager _ hc' => rw [Chosen_eq hc hc']
+    | wait _ hn _ _ => exact (noPE_vs hc hn).elim
+    | exact _ hn _ _ => exact (noPE_vs hc hn).elim
+    | «prefix» _ _ hn _ _ _ _ => exact (PE_noPA hc hn).elim
+    | drop _ _ hn => exact (PE_noPA hc (noAll hn hne)).elim
+  | wait hne hn hf hl =>
+    cases h' with
+    | idle e => exact absurd e hne
+    | eager _ hc' => exact (noPE_vs hc' hn).elim
+    | wait _ _ _ _ => rfl
+    | exact _ _ hor _ => exact (longer_vs hf hl hor).elim
+    | «prefix» _ hor _ _ _ _ _ => exact (longer_vs hf hl hor).elim
+    | drop _ hor _ => exact (longer_vs hf hl hor).elim
+  | exact hne hn hor hc =>
+    cases h' with
+    | idle e => exact absurd e hne
+    | eager _ hc' => exact (noPE_vs hc' hn).elim
+    | wait _ _ hf hl => exact (longer_vs hf hl hor).elim
+    | exact _ _ _ hc' => rw [Chosen_eq hc hc']
+    | «prefix» _ _ hnA _ _ _ _ => exact (noPA_vs hc hnA).elim
+    | drop _ _ hnA => exact (noPA_vs hc (noAll hnA hne)).elim
+  | @«prefix» b i hne hor hnA h1 h2 hc hmax =>
+    cases h' with
+    | idle e => exact absurd e hne
+    | eager _ hc' => exact (PE_noPA hc' hnA).elim
+    | wait _ _ hf hl => exact (longer_vs hf hl hor).elim
+    | exact _ _ _ hc' => exact (noPA_vs hc' hnA).elim
+    | @«prefix» b' i' _ _ _ h1' h2' hc' hmax' =>
+      have hi : i = i' := by
+        rcases Nat.lt_trichotomy i i' with hlt | heq | hgt
+        · have := hc'.mem
+          rw [hmax i' hlt h2' b' this.1] at this; exact absurd this.2 (by simp)
+        · exact heq
+        · have := hc.mem
+          rw [hmax' i hgt h2 b this.1] at this; exact absurd this.2 (by simp)
+      subst hi
+      rw [Chosen_eq hc hc']
+    | drop _ _ hnA' =>
+      have := hc.mem
+      rw [hnA' _ h1 h2 _ this.1] at this; exact absurd this.2 (by simp)
+  | drop hne hor hnA =>
+    cases h' with
+    | idle e => exact absurd e hne
+    | eager _ hc' => exact (PE_noPA hc' (noAll hnA hne)).elim
+    | wait _ _ hf hl => exact (longer_vs hf hl hor).elim
+    | exact _ _ _ hc' => exact (noPA_vs hc' (noAll hnA hne)).elim
+    | «prefix» _ _ _ h1' h2' hc' _ =>
+      have := hc'.mem
+      rw [hnA _ h1' h2' _ this.1] at this; exact absurd this.2 (by simp)
+    | drop _ _ _ => rfl
+
 /-! ### non-vacuity -/
 
 /-- the toy world has sound lookups over its flat binding list -/
